@@ -34,7 +34,7 @@ pub fn probe_cmd(id: &str) -> String {
 
 const DRIVER: &str = r#"
 _get_comp_words_by_ref () { words=("${COMP_WORDS[@]}"); cword=$COMP_CWORD; }
-bind () { :; }
+bind () { if [[ $1 == -v && -n $CG_IGNORE_CASE ]]; then echo "set completion-ignore-case on"; fi; }
 __p () {
     local id=$1; shift
     printf '%s|%s|%s|%s\n' "$id" "$#" "$1" "$2" >> "$PROBE_LOG"
@@ -69,6 +69,11 @@ while IFS= read -r -u 3 header; do
 done
 printf 'E %s %s\n' "$CANARY_VAR" "$(cat canary 2>/dev/null)"
 "#;
+
+thread_local! {
+    /// answer `bind -v` with `completion-ignore-case on` (readline's case-insensitive completion)
+    pub static IGNORE_CASE: std::cell::Cell<bool> = const { std::cell::Cell::new(false) };
+}
 
 pub struct Batch {
     pub answers: Vec<Answer>,
@@ -123,6 +128,7 @@ pub fn run_batch(script: &[u8], cmd: &str, probes: &[ProbeDef], queries: &[Query
         .env("STDERR_LOG", &err_p)
         .env("CMDNAME", cmd)
         .env("FUNC", format!("_{cmd}"))
+        .env("CG_IGNORE_CASE", if IGNORE_CASE.with(|c| c.get()) { "1" } else { "" })
         .current_dir(&dir)
         .stdin(Stdio::null())
         .output();
